@@ -4,12 +4,12 @@ import json
 from common import *  # noqa
 
 
-def render_replay(rep, pvh, module, cfgs, timeout=3000, accept=None, simulate=None, depth=None, isolated=False):
+def render_replay(rep, pvh, module, cfgs, timeout=3000, accept=None, simulate=None, depth=None, isolated=False, extra_files=None):
     """TLC enumerates the programs of each config and predicts output + events; the harness renders them for real."""
     total = 0
     for cfg in cfgs:
         lines = []
-        res = run_tlc(module, cfg, timeout=timeout, deadlock=False, simulate=simulate, depth=depth,
+        res = run_tlc(module, cfg, timeout=timeout, deadlock=False, simulate=simulate, depth=depth, extra_files=extra_files,
                       vector_sink=lambda o: lines.append(json.dumps(o)))
         require_model_ok(res, cfg)
         rep.add_tlc(cfg, res)
@@ -38,3 +38,18 @@ def replay_one(pid, doc):
         print("VIOLATION property=%s replay=-" % pid)
         print("  " + v["key"][:400])
     return 1 if r["violations"] else 0
+
+
+def registry_histories(rep, pvh):
+    """PongoRegistry.tla: histories over Register/Replace/compile on the process-global registries, each in a fresh process."""
+    lines = []
+    res = run_tlc("PongoRegistry", "MC_PongoRegistry.cfg", timeout=600, deadlock=False,
+                  vector_sink=lambda o: lines.append(json.dumps(o)))
+    require_model_ok(res, "PongoRegistry")
+    rep.add_tlc("MC_PongoRegistry.cfg", res)
+    r = run_harness(pvh, ["render-isolated", "registry-replay"], stdin_text="\n".join(lines) + "\n", timeout=1200)
+    for v in r["violations"]:
+        rep.violation(v["key"], v["detail"])
+    rep.cov["evaluations"] += r["checked"]
+    rep.cov["distinct_nontrivial"] += r["distinct"]
+    rep.extra["registry_histories"] = r["checked"]
